@@ -109,6 +109,23 @@ def relations(d, ptxt, etxt, e2txt, inp, bad, out, tag, bound_e=None):
                     bad.append(("capture-elements", dict(w, plain=len(tops), captured=len(elems))))
 
 
+def assertion_body(rng, depth):
+    """A sub-expression made of assertions only (words, ?N, infix, nested ?( ) / !( )), joined by concatenation, ALT and OR."""
+    I1 = ("int", 1, "dec")
+    atoms = [("word", "?empty"), ("word", "!empty"), ("word", "?root"), ("word", "!root"), ("word", "?haschildren"), ("npos", True, 0), ("npos", False, 1),
+             ("infix", ("cat", []), "==", I1), ("infix", ("word", "length"), ">", I1), ("sub", True, (), ("cat", [I1, ("word", "?eq")])),
+             ("sub", False, (), ("cat", [I1, ("word", "?eq")])), ("sub", True, (), ("cat", [("str", [b"("]), ("word", "?match")])),
+             ("sub", True, (), ("cat", [("str", [b"a"]), ("word", "?find")])), ("word", "?AT_name"), ("word", "!TAG_subprogram")]
+
+    def comb(dp):
+        k = rng.random()
+        if dp == 0 or k < 0.3:
+            return rng.choice(atoms)
+        parts = [comb(dp - 1) for _ in range(rng.randint(2, 3))]
+        return (rng.choice(["alt", "or", "cat"]), parts) if k < 0.9 else ("sub", rng.random() < 0.5, (), ("alt", parts))
+    return comb(depth)
+
+
 def job_core(payload):
     seed, count = payload
     d = common.get_driver()
@@ -131,6 +148,11 @@ def job_core(payload):
         else:
             e = g.anyprog(ts, {}, rng.randint(0, 3))
             e2 = g.push(ts, {}, 1)[0]
+        if rng.random() < 0.15:
+            # a body made of assertions only, some of which do not apply to what is on the stack (they complain and yield nothing --
+            # which inside ?( ) / !( ) is just "E yields nothing"): joined by concatenation, ALT and OR, nested
+            e = assertion_body(rng, rng.randint(1, 2))
+            out["assertion_only_bodies"] = out.get("assertion_only_bodies", 0) + 1
         etxt, e2txt = zast.text(("paren", (), e)) if e[0] in ("alt", "or") else zast.text(e), zast.text(("paren", (), e2))
         bound_e = None
         if len(ts) >= 2 and rng.random() < 0.5:
